@@ -1843,8 +1843,82 @@ fn c15_failed_apply_poisons_memtable(dir: PathBuf) -> ScenFut<'static> {
     })
 }
 
+/// One commit is held between its WAL write and its apply; behind it, commits that fail in their
+/// apply step return at once - more of them than the commit queue has slots.
+fn c17_failed_commits_fill_queue(dir: PathBuf) -> ScenFut<'static> {
+    Box::pin(async move {
+        let res = std::thread::spawn(move || -> Result<(), String> {
+            let rt = tokio::runtime::Builder::new_multi_thread().worker_threads(4).enable_all().build().map_err(|e| e.to_string())?;
+            rt.block_on(async move {
+                let cfg = Cfg { max_memtable_size: 16 * 1024, ..base_cfg() };
+                let t = std::sync::Arc::new(cfg.open(&dir).map_err(|e| e.to_string())?);
+                put(&t, &[(b"a", b"1")]).await?;
+                crate::panics::install();
+                let _ = crate::panics::drain_all();
+                let ctl = crate::e3::ctl();
+                ctl.reset();
+                let gate = ctl.arm_gate("commit.after_wal");
+                let tp = t.clone();
+                let held = tokio::spawn(async move { put(&tp, &[(b"held", b"x")]).await });
+                let g2 = gate.clone();
+                if !tokio::task::spawn_blocking(move || g2.wait_parked(5000)).await.unwrap_or(false) {
+                    gate.release();
+                    let _ = held.await;
+                    ctl.reset();
+                    return Err("harness: no commit reached commit.after_wal".into());
+                }
+                let big = vec![0x55u8; 16_000];
+                let mut outcomes = vec![];
+                for i in 0..12 {
+                    let tf = t.clone();
+                    let b = big.clone();
+                    let h = tokio::spawn(async move { put(&tf, &[(format!("f{i}").as_bytes(), &b[..])]).await });
+                    // each of them must return (with an error) while the first commit is still held
+                    match tokio::time::timeout(std::time::Duration::from_millis(400), h).await {
+                        Ok(Ok(r)) => outcomes.push(if r.is_ok() { "ok".to_string() } else { "error".to_string() }),
+                        Ok(Err(e)) => outcomes.push(if e.is_panic() { "PANIC".to_string() } else { "cancelled".to_string() }),
+                        Err(_) => {
+                            outcomes.push("waiting".to_string());
+                            break;
+                        }
+                    }
+                }
+                gate.release();
+                let held_result = tokio::time::timeout(std::time::Duration::from_secs(10), held).await;
+                ctl.reset();
+                let panics = crate::panics::drain_all();
+                let after = put(&t, &[(b"z", b"9")]).await;
+                if let Ok(t) = std::sync::Arc::try_unwrap(t) {
+                    close(t).await;
+                }
+                if !panics.is_empty() || outcomes.iter().any(|o| o == "PANIC") {
+                    return Err(format!(
+                        "one commit held between WAL write and apply; behind it commits that fail in their apply step return at once and leave their batches queued: outcomes {:?}; panics: {:?}",
+                        outcomes,
+                        panics.iter().take(2).collect::<Vec<_>>()
+                    ));
+                }
+                match held_result {
+                    Ok(Ok(Ok(()))) => {}
+                    other => return Err(format!("the held commit did not complete normally after its release: {:?} (outcomes of the failing commits: {:?})", other.map(|r| r.map(|x| x.is_ok())), outcomes)),
+                }
+                after.map_err(|e| format!("a commit after the episode failed: {e}"))
+            })
+        })
+        .join()
+        .map_err(|_| "scenario thread panicked".to_string())?;
+        res
+    })
+}
+
 pub fn all() -> Vec<Scenario> {
     vec![
+        Scenario {
+            id: "C17-failed-commits-fill-queue",
+            property: "C17",
+            title: "more failing commits than queue slots behind one commit that is slow to apply",
+            run: c17_failed_commits_fill_queue,
+        },
         Scenario {
             id: "C15-failed-apply-poisons-memtable",
             property: "C15",
